@@ -269,6 +269,107 @@ fn check_partition(cx: &mut Ctx, ifc: &Iface, keys: &Keys, msg: &[u8], parts: &[
     }
 }
 
+/// the incremental interface must agree with the one-shot function across *parameters* too, not only across
+/// partitions: key lengths and digest lengths (accepted and refused ones alike), and, for the verifying forms,
+/// authenticators handed over in every container the API accepts (array, exact Vec, a Vec longer than the MAC)
+fn param_agreement(cx: &mut Ctx, keys: &Keys, idx: &mut u64) {
+    let klens: [Option<usize>; 13] = [None, Some(0), Some(1), Some(15), Some(16), Some(17), Some(31), Some(32), Some(33), Some(63), Some(64), Some(65), Some(128)];
+    let olens = [0usize, 1, 15, 16, 17, 32, 33, 63, 64, 65];
+    let mlens = [0usize, 1, 127, 128, 129, 300];
+    for kl in klens {
+        for ol in olens {
+            *idx += 1;
+            if !cx.mine(*idx) {
+                continue;
+            }
+            let mut rng = cx.rng.fork(*idx);
+            let key = kl.map(|n| rng.bytes(n));
+            for ml in mlens {
+                let msg = rng.bytes(ml);
+                let cut = rng.range(0, ml);
+                let case = || json!({"iface":"crypto_generichash","keylen":kl,"outlen":ol,"len":ml,"cut":cut});
+                let one = call(cx, "C08|crypto_generichash(params)", "crypto_generichash", case, || {
+                    let mut out = vec![0u8; ol];
+                    crypto_generichash(&mut out, &msg, key.as_deref()).map(|_| out).map_err(|e| e.to_string())
+                });
+                let inc = call(cx, "C08|crypto_generichash(params)", "crypto_generichash_init/update/final", case, || {
+                    let mut st = crypto_generichash_init(key.as_deref(), ol).map_err(|e| e.to_string())?;
+                    crypto_generichash_update(&mut st, &msg[..cut]);
+                    crypto_generichash_update(&mut st, &msg[cut..]);
+                    let mut out = vec![0u8; ol];
+                    crypto_generichash_final(st, &mut out).map(|_| out).map_err(|e| e.to_string())
+                });
+                let (Some(one), Some(inc)) = (one, inc) else { continue };
+                cx.eval();
+                match (&one, &inc) {
+                    (Ok(a), Ok(b)) if a == b => cx.cover("generichash_params", "both_accept_equal"),
+                    (Err(_), Err(_)) => cx.cover("generichash_params", "both_refuse"),
+                    _ => cx.violation(
+                        &format!("C08|crypto_generichash|incremental_and_oneshot_disagree|{}", if one.is_ok() != inc.is_ok() { "one_refuses" } else { "digests_differ" }),
+                        json!({"oneshot":one.as_ref().map(|v| hx(v)).map_err(|e| e.clone()),"incremental":inc.as_ref().map(|v| hx(v)).map_err(|e| e.clone()),"case":case()}),
+                    ),
+                }
+            }
+            cx.key(&format!("gh params {:?} {}", kl, ol));
+        }
+    }
+    // verifying forms: containers
+    for ml in [0usize, 1, 15, 16, 17, 64, 127, 128, 129, 1000] {
+        *idx += 1;
+        if !cx.mine(*idx) {
+            continue;
+        }
+        let mut rng = cx.rng.fork(*idx);
+        let msg = rng.bytes(ml);
+        let cut = rng.range(0, ml);
+        let mut mac32 = [0u8; 32];
+        crypto_auth(&mut mac32, &msg, &keys.k32);
+        let mut mac16 = [0u8; 16];
+        crypto_onetimeauth(&mut mac16, &msg, &keys.k32);
+        for wrong in [false, true] {
+            let mut m32 = mac32;
+            let mut m16 = mac16;
+            if wrong {
+                m32[rng.below(32)] ^= 1 << rng.below(8);
+                m16[rng.below(16)] ^= 1 << rng.below(8);
+            }
+            for extra in [0usize, 1, 16, 48] {
+                let mut v32 = m32.to_vec();
+                v32.extend(rng.bytes(extra));
+                let mut v16 = m16.to_vec();
+                v16.extend(rng.bytes(extra));
+                let case = || json!({"len":ml,"cut":cut,"wrong_mac":wrong,"container":format!("Vec of MAC length + {}", extra)});
+                let a1 = call(cx, "C08|Auth(verify containers)", "Auth::compute_and_verify", case, || Auth::compute_and_verify(&v32, keys.k32, &msg).is_ok());
+                let a2 = call(cx, "C08|Auth(verify containers)", "Auth::verify", case, || {
+                    let mut a = Auth::new(keys.k32);
+                    a.update(&msg[..cut].to_vec());
+                    a.update(&msg[cut..].to_vec());
+                    a.verify(&v32).is_ok()
+                });
+                let o1 = call(cx, "C08|OnetimeAuth(verify containers)", "OnetimeAuth::compute_and_verify", case, || OnetimeAuth::compute_and_verify(&v16, keys.k32, &msg).is_ok());
+                let o2 = call(cx, "C08|OnetimeAuth(verify containers)", "OnetimeAuth::verify", case, || {
+                    let mut a = OnetimeAuth::new(keys.k32);
+                    a.update(&msg[..cut].to_vec());
+                    a.update(&msg[cut..].to_vec());
+                    a.verify(&v16).is_ok()
+                });
+                for (name, one, inc) in [("Auth", a1, a2), ("OnetimeAuth", o1, o2)] {
+                    let (Some(one), Some(inc)) = (one, inc) else { continue };
+                    cx.eval();
+                    if one != inc {
+                        cx.violation(&format!("C08|{}::verify|incremental_decision_differs_from_oneshot|{}", name, if extra == 0 { "exact_length_container" } else { "longer_container" }), json!({"oneshot_accepts":one,"incremental_accepts":inc,"case":case()}));
+                    }
+                    if one == wrong {
+                        cx.violation(&format!("C08|{}::compute_and_verify|wrong_decision", name), case());
+                    }
+                    cx.cover("verify_container", &format!("{}|+{}|{}", name, extra, if wrong { "wrong" } else { "right" }));
+                }
+            }
+        }
+        cx.key(&format!("verify containers {}", ml));
+    }
+}
+
 pub fn run(cx: &mut Ctx) {
     let (l2, l3, l2s, l3s) = match cx.tier {
         crate::ctx::Tier::Tiny => (132usize, 9usize, 4usize, 2usize),
@@ -283,6 +384,10 @@ pub fn run(cx: &mut Ctx) {
     let seed: [u8; 32] = krng.arr();
     let (pk, sk) = crypto_sign_seed_keypair(&seed);
     let keys = Keys { k32, k64, sk, pk };
+    {
+        let mut pidx = 1u64 << 40;
+        param_agreement(cx, &keys, &mut pidx);
+    }
     let maxlen = l2.max(l3);
     let base_msg = krng.bytes(maxlen + 1);
 
